@@ -108,7 +108,13 @@ var registry = map[string]func(t *testing.T, c *Collector){
 	"C12": func(t *testing.T, c *Collector) {
 		c.res.Rule = "all interleavings (<= bound preemptions, <= n ticks of the fake clock) of rate-limited writers' back-pressure steps with the real flusher goroutine, the sync ticker and explicit Flush calls; oracle: channel statements are scheduling points too; when nothing is enabled any more (every flush that was asked for, and every tick of the scenario, has completed) no writer may still be waiting (else stuck-writer), calls return without error and the history is linearizable; non-trivial = two threads alternated on the same lock or file"
 		scs := c12Scenarios(c.job.Tier)
-		c.res.Bound = fmt.Sprintf("%d scenarios, preemption bound %d, %d ticks", len(scs), scs[0].Bound, scs[0].Ticks)
+		maxTicks := 0
+		for _, sc := range scs {
+			if sc.Ticks > maxTicks {
+				maxTicks = sc.Ticks
+			}
+		}
+		c.res.Bound = fmt.Sprintf("%d scenarios, preemption bound %d, <= %d ticks", len(scs), scs[0].Bound, maxTicks)
 		runConcScenarios(t, c, scs)
 	},
 	"C06": func(t *testing.T, c *Collector) {
